@@ -22,12 +22,18 @@ def EntInv (e : Ent) : Prop := EntFresh e ∧ OnePer e ∧ FnsNodup e
 theorem entInv_empty (et : Nat) : EntInv { etype := et } :=
   ⟨⟨by simp, by simp⟩, by intro t r; simp, by intro f hf; simp at hf⟩
 
-theorem entInv_devInfo : EntInv devInfo := by
-  refine ⟨⟨by decide, by decide⟩, ?_, ?_⟩
+theorem nmFns_nodup (fset : Nat) : ((nmFns fset).map (·.fn)).Nodup := by
+  unfold nmFns
+  split <;> decide
+
+theorem entInv_devInfo (cfg : DevCfg) : EntInv (devInfo cfg) := by
+  refine ⟨⟨by simp [devInfo], by simp [devInfo]⟩, ?_, ?_⟩
   rotate_left
   · intro f hf
     simp only [devInfo, List.mem_cons, List.not_mem_nil, or_false] at hf
-    rcases hf with rfl | rfl <;> decide
+    rcases hf with rfl | rfl
+    · exact nmFns_nodup cfg.fset
+    · decide
   intro t r
   simp only [devInfo, List.filter_cons, List.filter_nil]
   by_cases h1 : nmType = t ∧ 2 = r
@@ -104,30 +110,30 @@ theorem entInv_updFeat (e : Ent) (h : EntInv e) (id : Nat) (g : Feat → Feat)
 
 /-! ### AddFunctionType -/
 
-theorem featAddFn_client (f : Feat) (fn : Nat) (r w : Bool) (h : f.role = 0) : featAddFn f fn r w = f := by
+theorem featAddFn_client (f : Feat) (fn : Nat) (r w cap : Bool) (h : f.role = 0) : featAddFn f fn r w cap = f := by
   simp [featAddFn, h]
 
-theorem featAddFn_again (f : Feat) (fn : Nat) (r w : Bool) (h : fn ∈ f.fns.map (·.fn)) : featAddFn f fn r w = f := by
+theorem featAddFn_again (f : Feat) (fn : Nat) (r w cap : Bool) (h : fn ∈ f.fns.map (·.fn)) : featAddFn f fn r w cap = f := by
   have : f.fns.any (·.fn = fn) = true := by
     obtain ⟨x, hx, rfl⟩ := List.mem_map.mp h
     exact List.any_eq_true.mpr ⟨x, hx, by simp⟩
   simp [featAddFn, this]
 
-theorem featAddFn_new (f : Feat) (fn : Nat) (r w : Bool) (hr : f.role ≠ 0) (h : fn ∉ f.fns.map (·.fn)) :
-    featAddFn f fn r w = { f with fns := f.fns ++ [⟨fn, r, w⟩] } := by
+theorem featAddFn_new (f : Feat) (fn : Nat) (r w cap : Bool) (hr : f.role ≠ 0) (h : fn ∉ f.fns.map (·.fn)) :
+    featAddFn f fn r w cap = { f with fns := f.fns ++ [⟨fn, r, w, w && cap⟩] } := by
   have : f.fns.any (·.fn = fn) = false := by
     rw [List.any_eq_false]
     intro x hx hc
     exact h (List.mem_map.mpr ⟨x, hx, by simpa using hc⟩)
   simp [featAddFn, hr, this]
 
-theorem featAddFn_fns_nodup (f : Feat) (fn : Nat) (r w : Bool) (h : (f.fns.map (·.fn)).Nodup) :
-    ((featAddFn f fn r w).fns.map (·.fn)).Nodup := by
+theorem featAddFn_fns_nodup (f : Feat) (fn : Nat) (r w cap : Bool) (h : (f.fns.map (·.fn)).Nodup) :
+    ((featAddFn f fn r w cap).fns.map (·.fn)).Nodup := by
   by_cases hr : f.role = 0
-  · rw [featAddFn_client f fn r w hr]; exact h
+  · rw [featAddFn_client f fn r w cap hr]; exact h
   · by_cases hm : fn ∈ f.fns.map (·.fn)
-    · rw [featAddFn_again f fn r w hm]; exact h
-    · rw [featAddFn_new f fn r w hr hm]
+    · rw [featAddFn_again f fn r w cap hm]; exact h
+    · rw [featAddFn_new f fn r w cap hr hm]
       simp only [List.map_append, List.map_cons, List.map_nil]
       rw [List.nodup_append]
       refine ⟨h, by simp, ?_⟩
@@ -135,11 +141,11 @@ theorem featAddFn_fns_nodup (f : Feat) (fn : Nat) (r w : Bool) (h : (f.fns.map (
       simp only [List.mem_singleton] at hb; subst hb
       intro hab; subst hab; exact hm ha
 
-theorem featAddFn_id (f : Feat) (fn : Nat) (r w : Bool) : (featAddFn f fn r w).id = f.id := by
+theorem featAddFn_id (f : Feat) (fn : Nat) (r w cap : Bool) : (featAddFn f fn r w cap).id = f.id := by
   unfold featAddFn; split; rfl; split <;> rfl
-theorem featAddFn_typ (f : Feat) (fn : Nat) (r w : Bool) : (featAddFn f fn r w).typ = f.typ := by
+theorem featAddFn_typ (f : Feat) (fn : Nat) (r w cap : Bool) : (featAddFn f fn r w cap).typ = f.typ := by
   unfold featAddFn; split; rfl; split <;> rfl
-theorem featAddFn_role (f : Feat) (fn : Nat) (r w : Bool) : (featAddFn f fn r w).role = f.role := by
+theorem featAddFn_role (f : Feat) (fn : Nat) (r w cap : Bool) : (featAddFn f fn r w cap).role = f.role := by
   unfold featAddFn; split; rfl; split <;> rfl
 
 /-! ### GetOrAddFeature -/
@@ -194,12 +200,12 @@ theorem entInv_getOrAdd (e : Ent) (h : EntInv e) (typ role : Nat) : EntInv (entG
 
 def Inv (s : St) : Prop := (∀ k, EntInv (s.pool k)) ∧ s.subs.Nodup
 
-theorem inv_init : Inv init := by
+theorem inv_init (cfg : DevCfg) : Inv (init cfg) := by
   refine ⟨?_, by simp [init]⟩
   intro k
   simp only [init]
   split
-  · exact entInv_devInfo
+  · exact entInv_devInfo cfg
   · exact entInv_empty 0
 
 theorem inv_upd (s : St) (h : Inv s) (k : Nat) (e : Ent) (he : EntInv e) (att : List Nat) (uc : Bool) :
@@ -222,10 +228,10 @@ theorem inv_step (s : St) (h : Inv s) (o : Op) : Inv (step s o).1 := by
     refine inv_upd s h k _ ?_ s.attached s.ucData
     obtain ⟨⟨h1, h2⟩, h3, h4⟩ := h.1 k
     exact ⟨⟨h1, fun f hf => Nat.lt_succ_of_lt (h2 f hf)⟩, h3, h4⟩
-  | addFn k fid fn r w =>
+  | addFn k fid fn r w cap =>
     refine inv_upd s h k _ ?_ s.attached s.ucData
-    exact entInv_updFeat (s.pool k) (h.1 k) fid _ (fun f => featAddFn_id f fn r w) (fun f => featAddFn_typ f fn r w)
-      (fun f => featAddFn_role f fn r w) (fun f hf => featAddFn_fns_nodup f fn r w hf)
+    exact entInv_updFeat (s.pool k) (h.1 k) fid _ (fun f => featAddFn_id f fn r w cap) (fun f => featAddFn_typ f fn r w cap)
+      (fun f => featAddFn_role f fn r w cap) (fun f hf => featAddFn_fns_nodup f fn r w cap hf)
   | setDescr k fid d =>
     refine inv_upd s h k _ ?_ s.attached s.ucData
     exact entInv_updFeat (s.pool k) (h.1 k) fid _ (fun _ => rfl) (fun _ => rfl) (fun _ => rfl) (fun _ hf => hf)
@@ -244,10 +250,11 @@ theorem inv_step (s : St) (h : Inv s) (o : Op) : Inv (step s o).1 := by
   | unsub p => exact ⟨h.1, h.2.filter _⟩
   | addUc k => exact ⟨h.1, h.2⟩
   | read p => exact h
+  | destRead p known => exact h
 
-theorem inv_run (ops : List Op) : Inv (run ops) := by
+theorem inv_run (cfg : DevCfg) (ops : List Op) : Inv (run cfg ops) := by
   unfold run
-  suffices ∀ s, Inv s → Inv (ops.foldl (fun s o => (step s o).1) s) from this init inv_init
+  suffices ∀ s, Inv s → Inv (ops.foldl (fun s o => (step s o).1) s) from this (init cfg) (inv_init cfg)
   induction ops with
   | nil => intro s h; exact h
   | cons o os ih => intro s h; exact ih _ (inv_step s h o)
@@ -274,8 +281,8 @@ theorem attached_fold (ops : List Op) : ∀ s : St, s.attached.Nodup → validFr
   | nil => intro s h _; exact h
   | cons o os ih => intro s h hv; exact ih _ (attached_step s o h hv.1) hv.2
 
-theorem attached_run (ops : List Op) (hv : validFrom init ops) : (run ops).attached.Nodup :=
-  attached_fold ops init (by simp [init]) hv
+theorem attached_run (cfg : DevCfg) (ops : List Op) (hv : validFrom (init cfg) ops) : (run cfg ops).attached.Nodup :=
+  attached_fold ops (init cfg) (by simp [init]) hv
 
 /-! ### the reply -/
 
@@ -404,6 +411,100 @@ theorem filter_ucNotify (l : List Nat) (p : Nat) : (l.map Obs.ucNotify).filter (
   induction l with
   | nil => rfl
   | cons q qs ih => simp [List.filter_cons, discTo, ih]
+
+/-! ### the device description never changes; partial write is announced only together with write -/
+
+theorem dev_step (s : St) (o : Op) : (step s o).1.dev = s.dev := by
+  cases o with
+  | sub p => simp only [step]; split <;> rfl
+  | feat k typ role => simp only [step]
+  | _ => rfl
+
+theorem dev_run (cfg : DevCfg) (ops : List Op) : (run cfg ops).dev = cfg := by
+  unfold run
+  suffices ∀ s : St, (ops.foldl (fun s o => (step s o).1) s).dev = s.dev from this (init cfg)
+  induction ops with
+  | nil => intro s; rfl
+  | cons o os ih => intro s; simp only [List.foldl_cons]; rw [ih, dev_step]
+
+def PartOk (e : Ent) : Prop := ∀ f ∈ e.feats, ∀ x ∈ f.fns, x.wpart = true → x.write = true
+
+theorem partOk_devInfo (cfg : DevCfg) : PartOk (devInfo cfg) := by
+  intro f hf x hx hw
+  simp only [devInfo, List.mem_cons, List.not_mem_nil, or_false] at hf
+  rcases hf with rfl | rfl
+  · simp only [nmFns] at hx
+    rcases List.mem_append.mp hx with hx | hx
+    · simp only [List.mem_cons, List.not_mem_nil, or_false] at hx
+      rcases hx with rfl | rfl | rfl | rfl | rfl | rfl | rfl | rfl <;> simp at hw
+    · split at hx
+      · simp at hx
+      · simp only [List.mem_singleton] at hx; subst hx; simp at hw
+  · simp only [List.mem_singleton] at hx; subst hx; simp at hw
+
+theorem partOk_featAddFn (f : Feat) (fn : Nat) (r w cap : Bool) (h : ∀ x ∈ f.fns, x.wpart = true → x.write = true) :
+    ∀ x ∈ (featAddFn f fn r w cap).fns, x.wpart = true → x.write = true := by
+  unfold featAddFn
+  split
+  · exact h
+  · split
+    · exact h
+    · intro x hx hw
+      rcases List.mem_append.mp hx with hx | hx
+      · exact h x hx hw
+      · simp only [List.mem_singleton] at hx; subst hx
+        simp only [Bool.and_eq_true] at hw; exact hw.1
+
+theorem partOk_updFeat (e : Ent) (h : PartOk e) (id : Nat) (g : Feat → Feat)
+    (hg : ∀ f, (∀ x ∈ f.fns, x.wpart = true → x.write = true) → ∀ x ∈ (g f).fns, x.wpart = true → x.write = true) :
+    PartOk { e with feats := updFeat e.feats id g } := by
+  intro f hf
+  rcases updFeat_mem e.feats id g f hf with hf | ⟨f', hf', rfl⟩
+  · exact h f hf
+  · exact hg f' (h f' hf')
+
+theorem partOk_step (s : St) (h : ∀ k, PartOk (s.pool k)) (o : Op) : ∀ k, PartOk ((step s o).1.pool k) := by
+  have updk : ∀ (k : Nat) (e : Ent), PartOk e → ∀ j, PartOk (upd s.pool k e j) := by
+    intro k e he j
+    by_cases hj : j = k
+    · subst hj; simp only [upd_same]; exact he
+    · simp only [upd_other _ _ _ _ hj]; exact h j
+  cases o with
+  | attach k => exact h
+  | detach k => exact h
+  | renew k et => exact updk k _ (by intro f hf; simp at hf)
+  | feat k typ role =>
+    simp only [step]
+    refine updk k _ ?_
+    unfold entGetOrAdd
+    split
+    · exact h k
+    · intro f hf
+      rcases List.mem_append.mp hf with hf | hf
+      · exact h k f hf
+      · simp only [List.mem_singleton] at hf; subst hf; intro x hx; simp at hx
+  | nextId k => exact updk k _ (h k)
+  | addFn k fid fn r w cap =>
+    exact updk k _ (partOk_updFeat (s.pool k) (h k) fid _ (fun f hf => partOk_featAddFn f fn r w cap hf))
+  | setDescr k fid d => exact updk k _ (partOk_updFeat (s.pool k) (h k) fid _ (fun f hf => hf))
+  | sub p => simp only [step]; split <;> exact h
+  | unsub p => exact h
+  | addUc k => exact h
+  | read p => exact h
+  | destRead p known => exact h
+
+theorem partOk_run (cfg : DevCfg) (ops : List Op) : ∀ k, PartOk ((run cfg ops).pool k) := by
+  unfold run
+  suffices ∀ s : St, (∀ k, PartOk (s.pool k)) → ∀ k, PartOk ((ops.foldl (fun s o => (step s o).1) s).pool k) from
+    this (init cfg) (by
+      intro k
+      simp only [init]
+      split
+      · exact partOk_devInfo cfg
+      · intro f hf; simp at hf)
+  induction ops with
+  | nil => intro s h; exact h
+  | cons o os ih => intro s h; exact ih _ (partOk_step s h o)
 
 /-- observations addressed to peer p -/
 def toPeer (p : Nat) (o : Obs) : Bool := peerOf o == some p
